@@ -425,6 +425,31 @@ def check(model: Model, run: Run) -> None:
                 while isinstance(root, ast.Attribute):
                     root = root.value
                 ok = isinstance(root, ast.Name) and (root.id in params) and (root.id != "self" or "_packing_options" in norm(a))
+                if not ok and isinstance(root, ast.Name) and root.id == "self" and fi.cls and fi.cls not in SESSION_CLASSES:
+                    # a helper object that was handed the options when it was built (the constructor call is judged as a call site)
+                    first = a
+                    while isinstance(first, ast.Attribute) and not (isinstance(first.value, ast.Name) and first.value.id == "self"):
+                        first = first.value
+                    from ..srcmodel import attr_is_constructor_param
+                    pn = attr_is_constructor_param(model, fi.cls, first.attr) if isinstance(first, ast.Attribute) else None
+                    if pn is not None:
+                        init = model.find_method(fi.cls, "__init__")
+                        idx = init.params().index(pn) - 1
+                        built = 0
+                        ok = True
+                        for gq, g in list(model.functions.items()):
+                            if isinstance(g.node, ast.Lambda):
+                                continue
+                            for bc in walk_no_nested(g.node):
+                                if isinstance(bc, ast.Call) and isinstance(bc.func, (ast.Name, ast.Attribute)) and model.resolve_name(g.module, norm(bc.func)) == fi.cls:
+                                    built += 1
+                                    arg = bc.args[idx] if idx < len(bc.args) else next((k.value for k in bc.keywords if k.arg == pn), None)
+                                    r_ = arg
+                                    while isinstance(r_, ast.Attribute):
+                                        r_ = r_.value
+                                    if not (isinstance(r_, ast.Name) and r_.id in g.params() and (r_.id != "self" or "_packing_options" in norm(arg))):
+                                        ok = False
+                        ok = ok and built > 0
                 run.ob("I5-options-provenance", ok, {"function": fq.split("sansldap.")[-1], "argument": norm(a)[:60]})
                 if not ok:
                     run.fail(Finding("I5-options-provenance", fq, norm(a)[:80], f"{fq.split('sansldap.')[-1]} passes `{norm(a)[:60]}` as options: not rooted at a parameter or at the session's own _packing_options (a default or global instance ignores the session's registrations)", model.loc(fi.module, c)))
